@@ -3,6 +3,7 @@ import PyomaVerif.Lemmas.PlscfChain
 import PyomaVerif.Lemmas.Unity
 import Mathlib.Tactic.Ring
 import Mathlib.Tactic.Linarith
+import Mathlib.LinearAlgebra.Matrix.Charpoly.Basic
 /-!
 # pLSCF under a permutation of the channels (helpers of `Props/C08PermPlscf.lean`)
 
@@ -586,5 +587,29 @@ theorem ac2mpPoly_perm [IsStrictOrderedRing K] {l d : Nat} (hl : 0 < l) {ρ ρi 
   rfl
 
 end norm
+
+/-! ## 6. the characteristic polynomial of the conjugated state matrix -/
+section charpoly
+variable {K : Type} [CommRing K]
+
+/-- a permutation of `0 … d-1` as an equivalence of `Fin d` -/
+def PermOn.equiv {d : Nat} {π πi : Nat → Nat} (h : PermOn d π πi) : Fin d ≃ Fin d where
+  toFun i := ⟨π i.1, h.lt i.1 i.2⟩
+  invFun i := ⟨πi i.1, h.lt' i.1 i.2⟩
+  left_inv i := Fin.ext (h.left i.1 i.2)
+  right_inv i := Fin.ext (h.right i.1 i.2)
+
+/-- conjugation by a permutation matrix keeps the characteristic polynomial: the same eigenvalues with
+    the same multiplicities -/
+theorem charpoly_perm {d : Nat} {π πi : Nat → Nat} (hπ : PermOn d π πi) (A A' : Nat → Nat → K)
+    (hA : ∀ i, i < d → ∀ j, j < d → A' i j = A (π i) (π j)) :
+    (toMx d d A').charpoly = (toMx d d A).charpoly := by
+  have e : toMx d d A' = Matrix.reindex hπ.equiv.symm hπ.equiv.symm (toMx d d A) := by
+    ext i j
+    simp only [toMx, Matrix.reindex_apply, Matrix.submatrix_apply, Equiv.symm_symm]
+    exact hA i.1 i.2 j.1 j.2
+  rw [e, Matrix.charpoly_reindex]
+
+end charpoly
 
 end PV.Cov
